@@ -9,6 +9,7 @@ Definition subseg (s : seg) (dur : Z) (min_dur : option Z) (k1 k2 : Z) (eps : Z)
   | None => if dur >? sd then None
             else let t := st s * F + k1 * (sd - dur) * 1024 in Some (t, t + dur * F)
   | Some md =>
+      if md >? sd then None else   (* after the repair of F10 *)
       let mx := Z.min sd dur in
       let rnd := md * F + k1 * (mx - md) * 1024 in
       let t := st s * F + k2 * ((sd * F - rnd) / 1024) in
